@@ -20,6 +20,7 @@ import numpy as np
 
 from harness.core import exc_class
 from harness.props.c08 import gen_tree, fresh_names
+from harness.props import c12_batch                      # part: genes_at_a_time > 1 (Model/SelectionK.v)
 
 
 # ------------------------------------------------------------------ generators
@@ -685,6 +686,7 @@ def run(ctx):
         stage_level(ctx, worlds, n_configs=ctx.n(4, 12))
         cleanup(d)
         done += m
+    c12_batch.run_part(ctx)
 
 
 def replay(ctx, rec):
